@@ -123,6 +123,10 @@ def render_display(M, r, out, ty_hint=None):
         if v.name == 'ParseIntError':
             out.extend(PARSE_INT_MSG[v.fields[0].n].encode()); return
         if v.name == 'Cow': render_display(M, v.fields[0], out); return
+        if v.name == 'LinesCodecError':
+            out.extend(b'max line length exceeded' if v.variant == 0 else b'<io error>'); return
+        if v.name in ('SendError', 'TryRecvError', 'ParseBoolError', 'ValidationError', 'ValidationErrors'):
+            out.extend(('<' + v.name + '>').encode()); return
         r2 = M.prog.impl_index.get((v.name, 'Display', 'fmt'))
         if r2:
             f = mk_formatter(out)
